@@ -97,6 +97,9 @@ def expand_atoms(node):
     return {k: expand_atoms(v) for k, v in node.items()}
 
 
+_REGPAD = {}          # register number -> leading zeros used in the text being rendered (reset by render / render_expr)
+
+
 def expr_tokens(e, rng=None):
     """tokens of an expression; glue=True means 'no space before' in the natural layout"""
     t = e["t"]
@@ -109,7 +112,11 @@ def expr_tokens(e, rng=None):
     if t == "var":
         return [Tok(e["x"])]
     if t == "reg":
-        return [Tok("q%d" % e["n"])]
+        # q01, q007 name the same register as q1, q7; one spelling per register within a text (two spellings of one register in
+        # one expression are two different symbols for the code: outside the properties)
+        if e["n"] not in _REGPAD:
+            _REGPAD[e["n"]] = "0" * rng.randint(1, 2) if (rng and rng.random() < 0.25) else ""
+        return [Tok("q%s%d" % (_REGPAD[e["n"]], e["n"]))]
     if t == "par":
         return [Tok("{"), Tok(e["p"], True), Tok("}", True)]
     if t == "idx":
@@ -280,7 +287,7 @@ DEFAULT_LAYOUT = dict(nl="\n", indent="    ", final_nl=True, spaced=False)
 # comment texts: code-like text, quotes, braces, and characters that some string methods treat as line ends (form feed, vertical tab,
 # file/group/record separators, NEL, LINE/PARAGRAPH SEPARATOR) but the grammar does not (a comment runs to the next CR or LF)
 COMMENTS = ["# a comment line, with = | [ symbols {x}", "# trailing comment | 1", "#", "# \"unterminated string", "# tab\tinside",
-            "# was:\x0cVgate(1) | 3", "# page\x0bbreak \x1c \x1d \x1e", "# next\x85Vac | 9", "# caf\u00e9 \u2028Vac | 8\u2029 x", "## for int i in 0:3"]
+            "# was:\x0cVgate(1) | 3", "# page\x0bbreak \x1c \x1d \x1e", "# next\x85Vac | 9", "# caf\u00e9 \u2028Vac | 8\u2029 x", "## for int i in 0:3", "# data in C:\\runs\\", "# continued \\"]
 # layout the language declares insignificant (C18); every key is optional:
 #   nl: "\n" | "\r\n" | "\r"      indent: "\t" | "    "      final_nl: bool
 #   spaced: a space at EVERY token boundary        wide: 1..3 spaces wherever there is one
@@ -304,6 +311,7 @@ def join_line(toks, layout, rng=None):
 def render(s, rng=None, layout=None):
     lay = dict(DEFAULT_LAYOUT)
     lay.update(layout or {})
+    _REGPAD.clear()
     lines = script_lines(s, rng)
     lrng = random.Random((rng.random() if rng else 0.5))
     out = []
@@ -332,6 +340,7 @@ def render(s, rng=None, layout=None):
 
 
 def render_expr(e, rng=None):
+    _REGPAD.clear()
     return join_line(expr_tokens(e, rng), DEFAULT_LAYOUT, rng)
 
 
